@@ -155,6 +155,11 @@ FaWrapOK(out, w) ==
   IN Len(c) = 2 /\ c[1].okRec /\ \A i \in 1..Len(L) : Len(L[i]) <= w /\ (i < Len(L) => Len(L[i]) = w)
 FqRound(out, head, seq, qual) ==
   LET c == FqChain(out) IN Len(c) = 2 /\ c[1].okRec /\ c[1].errs = {} /\ c[1].rec.head = head /\ c[1].rec.lines = <<seq>> /\ c[1].rec.qual = qual /\ c[2].okEnd /\ ~c[2].okRec
+FaTwice(out, head, seq) ==
+  LET c == FaChain(out \o out) IN Len(c) = 3 /\ c[3].okEnd /\ \A i \in 1..2 : c[i].okRec /\ c[i].rec.head = head /\ Concat(c[i].rec.lines) = seq
+FqTwice(out, head, seq, qual) ==
+  LET c == FqChain(out \o out) IN Len(c) = 3 /\ c[3].okEnd /\ ~c[3].okRec
+                                  /\ \A i \in 1..2 : c[i].okRec /\ c[i].errs = {} /\ c[i].rec.head = head /\ c[i].rec.lines = <<seq>> /\ c[i].rec.qual = qual
 StripLF(s) == IF Len(s) > 0 /\ s[Len(s)] = LF THEN SubSeq(s, 1, Len(s) - 1) ELSE s
 NonEmpty(ls) == SelectSeq(ls, LAMBDA z : z # <<>>)
 WriteViol(fmt, el, a) ==
@@ -168,6 +173,8 @@ WriteViol(fmt, el, a) ==
            conj == <<
              <<"C10", "record_write_roundtrip", ~dom \/ (FaRound(v.w, a.head, cat) /\ FaRound(v.ow, a.head, cat))>>,
              <<"C10", "record_write_wrap", ~dom \/ (FaRound(v.ww, a.head, cat) /\ FaWrapOK(v.ww, 3) /\ FaRound(v.oww, a.head, cat) /\ FaWrapOK(v.oww, 3))>>,
+             \* "many records written back to back parse to the same list": the same record written twice gives two records
+             <<"C10", "record_written_twice_parses_to_two_records", ~dom \/ \A o \in {v.w, v.ow, v.ww, v.oww} : FaTwice(o, a.head, cat)>>,
              <<"C11", "fasta_write_unchanged_bytes",
                  /\ Len(v.wu) > 0 /\ v.wu[Len(v.wu)] = LF /\ Len(wu0) <= Len(el.raw) /\ SubSeq(el.raw, 1, Len(wu0)) = wu0
                  /\ AllBlank(SubSeq(el.raw, Len(wu0) + 1, Len(el.raw)))>>,
@@ -177,6 +184,7 @@ WriteViol(fmt, el, a) ==
   ELSE LET dom == HeadInDomain(a.head) /\ NoByte(a.lines[1], {LF, CR}) /\ NoByte(a.qual, {LF, CR})
            conj == <<
              <<"C11", "record_write_roundtrip", ~dom \/ (FqRound(v.w, a.head, a.lines[1], a.qual) /\ FqRound(v.ow, a.head, a.lines[1], a.qual))>>,
+             <<"C11", "record_written_twice_parses_to_two_records", ~dom \/ \A o \in {v.w, v.ow} : FqTwice(o, a.head, a.lines[1], a.qual)>>,
              <<"C11", "write_unchanged_reproduces_bytes", v.wu = StripLF(el.raw) \o <<LF>> >>
            >>
        IN {<<conj[i][1], conj[i][2]>> : i \in {i \in 1..Len(conj) : ~conj[i][3]}}
